@@ -11,7 +11,9 @@ import (
 	objectpatch "github.com/flant/shell-operator/pkg/kube/object_patch"
 	kubeeventsmanager "github.com/flant/shell-operator/pkg/kube_events_manager"
 	metricstorage "github.com/flant/shell-operator/pkg/metric_storage"
+	kemtypes "github.com/flant/shell-operator/pkg/kube_events_manager/types"
 	schedulemanager "github.com/flant/shell-operator/pkg/schedule_manager"
+	"github.com/flant/shell-operator/pkg/task"
 	"github.com/flant/shell-operator/pkg/task/queue"
 )
 
@@ -48,6 +50,59 @@ func (op *ShellOperator) VerifC03Run(tune func(q *queue.TaskQueue)) {
 	op.initAndStartHookQueues()
 	if tune != nil {
 		op.TaskQueues.Iterate(func(q *queue.TaskQueue) { tune(q) })
+	}
+	op.ManagerEventsHandler.Start()
+}
+
+// VerifC03RunObserved is VerifC03Run with two observation taps for the harness. wrap is given every
+// queue and its handler (the operator's taskHandler) and returns the handler to install: the main queue
+// is wrapped before it is started, the hook queues right after initAndStartHookQueues created them (they
+// are idle until the events consumer runs, which is started last). recv is called by the consumer's
+// goroutine with the tasks the operator's own schedule / kubernetes event callbacks (installed by
+// initHookManager) produced for an event, at the moment the event was received.
+func (op *ShellOperator) VerifC03RunObserved(tune func(q *queue.TaskQueue),
+	wrap func(q *queue.TaskQueue, h func(task.Task) queue.TaskResult) func(task.Task) queue.TaskResult,
+	recv func(kind string, key string, tasks []task.Task)) {
+	op.bootstrapMainQueue(op.TaskQueues)
+	mainQueue := op.TaskQueues.GetMain()
+	if tune != nil {
+		tune(mainQueue)
+	}
+	if wrap != nil {
+		mainQueue.Handler = wrap(mainQueue, mainQueue.Handler)
+	}
+	op.TaskQueues.StartMain()
+	op.initAndStartHookQueues()
+	op.TaskQueues.Iterate(func(q *queue.TaskQueue) {
+		if q == mainQueue {
+			return
+		}
+		if tune != nil {
+			tune(q)
+		}
+		if wrap != nil {
+			q.Handler = wrap(q, q.Handler)
+		}
+	})
+	if recv != nil {
+		scheduleCb := op.ManagerEventsHandler.scheduleCb
+		op.ManagerEventsHandler.scheduleCb = func(crontab string) []task.Task {
+			var tasks []task.Task
+			if scheduleCb != nil {
+				tasks = scheduleCb(crontab)
+			}
+			recv("schedule", crontab, tasks)
+			return tasks
+		}
+		kubeEventCb := op.ManagerEventsHandler.kubeEventCb
+		op.ManagerEventsHandler.kubeEventCb = func(kubeEvent kemtypes.KubeEvent) []task.Task {
+			var tasks []task.Task
+			if kubeEventCb != nil {
+				tasks = kubeEventCb(kubeEvent)
+			}
+			recv("kubernetes", kubeEvent.MonitorId, tasks)
+			return tasks
+		}
 	}
 	op.ManagerEventsHandler.Start()
 }
